@@ -120,7 +120,17 @@ class Tables(object):
         cm = self._class_methods()
 
         def mk_indentator(indent_str=None):
-            return Obj('Indentator', indent_str=indent_str, _level=0)
+            # the stand-in is initialised by the class's own __init__
+            obj = Obj('Indentator')
+            init = cm.get('Indentator', {}).get('__init__')
+            if init is None:
+                raise AnalysisError('Indentator.__init__ vanished')
+            ev0 = Evaluator(self.indent_mod, 'Indentator',
+                            cm['Indentator'], {}, class_methods=cm)
+            ev0.call(init, [indent_str], self_obj=obj)
+            if not obj.has('_level'):
+                raise AnalysisError('Indentator has no _level counter')
+            return obj
 
         def mk_obfuscator(**kw):
             return Obj('Obfuscator', **kw)
